@@ -213,6 +213,33 @@ def check_binding(B, m, tag, times, rename=None, outputs=None, reduced=None,
                          s[k][o][i],
                          B.uf('D%d:F[%s|%s|%r|%s]' % (
                              j, sig, on, round(float(t), 9), pname), *args))
+    # a subset requested directly, named in another order than published:
+    # the columns follow the published order of the selected parameters
+    if n >= 3:
+        sub = [0, n - 1, 1]                      # caller's order
+        m.enable_sensitivities(True, parameter_names=[pub[i] for i in sub])
+        y6, s6 = m.simulate(pa, times)
+        sel = sorted(sub)
+        B.fact('%s: subset sensitivity shape' % tag,
+               np.shape(s6) == (len(times), len(outs), len(sel)),
+               repr(np.shape(s6)))
+        if np.shape(s6) == (len(times), len(outs), len(sel)):
+            order = states + consts
+            for k, t in enumerate(times):
+                for o, on in enumerate(outs):
+                    for qi, i in enumerate(sel):
+                        j = order.index(myo[i])
+                        B.eq('%s: subset (named out of order) sens[t=%s, %s, '
+                             'd/d %s]' % (tag, t, on, pub[i]), s6[k][o][qi],
+                             B.uf('D%d:F[%s|%s|%r|%s]' % (
+                                 j, sig, on, round(float(t), 9), pname),
+                                 *args))
+        # ... and asking for everything afterwards gives everything
+        m.enable_sensitivities(True)
+        y7, s7 = m.simulate(pa, times)
+        B.fact('%s: all sensitivities after a subset' % tag,
+               np.shape(s7) == (len(times), len(outs), n),
+               repr(np.shape(s7)))
     m.enable_sensitivities(False)
     if reduced:
         r = chi.ReducedMechanisticModel(m)
